@@ -240,6 +240,17 @@ func c20Chain(h int, r *core.Rng) *TNode {
 
 func init() {
 	extraLeaf["zero-stack"] = func(*LeafDesc) any { return stackage.Stack{} }
+	extraLeaf["unhashable"] = func(l *LeafDesc) any {
+		switch l.N {
+		case 0:
+			return []string{"s1", "s2"}
+		case 1:
+			return map[string]int{"k": 1}
+		case 2:
+			return func() {}
+		}
+		return struct{ V []int }{[]int{1, 2}}
+	}
 	extraLeaf["nil-instance-ptr"] = func(l *LeafDesc) any {
 		switch l.N {
 		case 0:
@@ -296,7 +307,17 @@ func c20Run(c *core.Ctx, idx int) {
 		})
 		st := stacks[r.Intn(len(stacks))]
 		var odd *TNode
-		switch r.Intn(4) {
+		switch r.Intn(7) {
+		case 4:
+			// a Condition inside a Condition, the inner one holding a Stack
+			odd = &TNode{T: "cond", Kw: "outer", Op: &OpDesc{Code: 1}, Expr: &TNode{T: "cond", Kw: "inner", Op: &OpDesc{Code: 6},
+				Expr: &TNode{T: "stack", Kind: "OR", Kids: []*TNode{{T: "leaf", Leaf: &LeafDesc{Tag: "str", S: "in-a"}}, {T: "leaf", Leaf: &LeafDesc{Tag: "str", S: "in-b"}}}}}}
+		case 5, 6:
+			// leaves that cannot serve as map keys
+			odd = &TNode{T: "leaf", Leaf: &LeafDesc{Tag: "unhashable", N: r.Intn(4)}}
+			if r.Bool() {
+				st.Kids = append(st.Kids, &TNode{T: "stack", Kind: "AND", Kids: []*TNode{{T: "stack", Kind: "OR", Kids: []*TNode{{T: "leaf", Leaf: &LeafDesc{Tag: "unhashable", N: r.Intn(4)}}, {T: "leaf", Leaf: &LeafDesc{Tag: "str", S: "u"}}}}}})
+			}
 		case 0:
 			odd = &TNode{T: "leaf", Leaf: &LeafDesc{Tag: "zero-stack"}}
 		case 1:
